@@ -404,9 +404,9 @@ func checkProperty(e *engine.Engine, verif, id, tier string, seed int, loadS flo
 					continue
 				}
 			}
-			if unproved[ob.Name] {
+			if unproved[ob.Name] || unproved[obLineKey(e.RepoDir, ob)] {
 				nUnproved++
-				unprovedSeen = append(unprovedSeen, ob.Name+" ["+ob.Status+"]")
+				unprovedSeen = append(unprovedSeen, ob.Name+" ["+ob.Status+"] key: "+obLineKey(e.RepoDir, ob))
 				o.Status = "not-covered(" + ob.Status + ")"
 				all = append(all, o)
 				continue
@@ -640,4 +640,36 @@ func TestVerifReplay(t *testing.T) {
 	fails := got != kf.WitnessWant
 	witnessCache[ckey] = fails
 	return fails
+}
+
+// obLineKey names an obligation by function, kind and the text of its source line instead of
+// its ordinal: `pkg.Func#kind@<trimmed source line>`. Entries of "unproved" written this way
+// keep pointing at the same expression when an unrelated edit adds or removes an earlier
+// obligation of the same kind in the function (which renumbers the ordinals).
+var srcCache = map[string][]string{}
+
+func obLineKey(repo string, ob *engine.Obligation) string {
+	i := strings.LastIndex(ob.Pos, ":")
+	if i < 0 {
+		return ""
+	}
+	file := ob.Pos[:i]
+	var line int
+	fmt.Sscanf(ob.Pos[i+1:], "%d", &line)
+	lines, ok := srcCache[file]
+	if !ok {
+		data, err := os.ReadFile(repo + "/" + file)
+		if err == nil {
+			lines = strings.Split(string(data), "\n")
+		}
+		srcCache[file] = lines
+	}
+	if line < 1 || line > len(lines) {
+		return ""
+	}
+	name := ob.Name
+	if j := strings.LastIndex(name, "."); j > strings.Index(name, "#") && strings.Index(name, "#") >= 0 {
+		name = name[:j]
+	}
+	return name + "@" + strings.TrimSpace(lines[line-1])
 }
